@@ -70,83 +70,110 @@ fn write_dyn(b: &dyn RtcpPacketWriter, buf: &mut [u8]) -> Result<usize, RtcpWrit
 
 /// C06: announced size == written size, for buffer lengths 0..=n+slack
 pub fn c06(cfg: &Cfg) -> Result<(), String> {
-    let size = with_writer(cfg, &mut |b: &dyn RtcpPacketWriter| b.calculate_size());
-    match size {
-        Ok(n) => {
-            if !matches!(cfg, Cfg::Compound(_)) && n % 4 != 0 {
-                return Err(format!("announced size {} is not a multiple of 4", n));
-            }
-            let lens: Vec<usize> = if n <= 64 { (0..=n + 5).collect() } else { vec![0, 1, n / 2, n - 1, n, n + 1, n + 7] };
-            for l in lens {
-                let mut buf = vec![0xa5u8; l];
-                let (_, r) = write(cfg, &mut buf);
-                if l >= n {
-                    match r {
-                        Ok(m) if m == n => {}
-                        other => return Err(format!("calculate_size = Ok({}) but write_into(len {}) = {:?}", n, l, other)),
-                    }
-                } else {
-                    match r {
-                        Err(RtcpWriteError::OutputTooSmall(m)) if m == n => {}
-                        other => return Err(format!("calculate_size = Ok({}) but write_into(len {}) = {:?}", n, l, other)),
+    let is_compound = matches!(cfg, Cfg::Compound(_));
+    with_writer(cfg, &mut |w: &dyn RtcpPacketWriter| {
+        match w.calculate_size() {
+            Ok(n) => {
+                if !is_compound && n % 4 != 0 {
+                    return Err(format!("announced size {} is not a multiple of 4", n));
+                }
+                let lens: Vec<usize> = if n <= 64 { (0..=n + 5).collect() } else { vec![0, 1, n / 2, n - 1, n, n + 1, n + 7] };
+                for l in lens {
+                    let mut buf = vec![0xa5u8; l];
+                    let r = write_dyn(w, &mut buf);
+                    if l >= n {
+                        match r {
+                            Ok(m) if m == n => {}
+                            other => return Err(format!("calculate_size = Ok({}) but write_into(len {}) = {:?}", n, l, other)),
+                        }
+                    } else {
+                        match r {
+                            Err(RtcpWriteError::OutputTooSmall(m)) if m == n => {}
+                            other => return Err(format!("calculate_size = Ok({}) but write_into(len {}) = {:?}", n, l, other)),
+                        }
                     }
                 }
+                Ok(())
             }
-            Ok(())
-        }
-        Err(e) => {
-            let mut buf = vec![0u8; 64];
-            let (_, r) = write(cfg, &mut buf);
-            if r != Err(e) {
-                return Err(format!("calculate_size failed but write_into = {:?}", r));
+            Err(e) => {
+                let mut buf = vec![0u8; 64];
+                let r = write_dyn(w, &mut buf);
+                if r != Err(e) {
+                    return Err(format!("calculate_size failed but write_into = {:?}", r));
+                }
+                Ok(())
             }
-            Ok(())
         }
-    }
+    })
 }
 
 /// C17: written bytes do not depend on previous buffer contents; bytes beyond n and failed writes leave the buffer alone
 pub fn c17(cfg: &Cfg) -> Result<(), String> {
-    let size = with_writer(cfg, &mut |b: &dyn RtcpPacketWriter| b.calculate_size());
-    let n = match size {
-        Ok(n) => n,
-        Err(_) => {
-            let mut buf = vec![0x5au8; 40];
-            let before = buf.clone();
-            let _ = write(cfg, &mut buf);
-            if buf != before {
-                return Err("failed write modified the buffer".into());
+    with_writer(cfg, &mut |w: &dyn RtcpPacketWriter| {
+        let n = match w.calculate_size() {
+            Ok(n) => n,
+            Err(_) => {
+                let mut buf = vec![0x5au8; 40];
+                let before = buf.clone();
+                let _ = write_dyn(w, &mut buf);
+                if buf != before {
+                    return Err("failed write modified the buffer".to_string());
+                }
+                return Ok(());
             }
-            return Ok(());
+        };
+        let mut a = vec![0x00u8; n + 9];
+        let mut b = vec![0xffu8; n + 9];
+        for (i, x) in b.iter_mut().enumerate() {
+            *x = 0xff ^ (i as u8).wrapping_mul(37);
         }
-    };
-    let mut a = vec![0x00u8; n + 9];
-    let mut b = vec![0xffu8; n + 9];
-    for (i, x) in b.iter_mut().enumerate() {
-        *x = 0xff ^ (i as u8).wrapping_mul(37);
-    }
-    let b0 = b.clone();
-    let (_, ra) = write(cfg, &mut a);
-    let (_, rb) = write(cfg, &mut b);
-    if ra != Ok(n) || rb != Ok(n) {
-        return Err(format!("write failed: {:?} {:?}", ra, rb));
-    }
-    if a[..n] != b[..n] {
-        let i = (0..n).find(|&i| a[i] != b[i]).unwrap();
-        return Err(format!("byte {} of {} depends on the previous buffer contents ({:02x} vs {:02x})", i, n, a[i], b[i]));
-    }
-    if a[n..].iter().any(|&x| x != 0) || b[n..] != b0[n..] {
-        return Err("bytes beyond the reported size were modified".into());
-    }
-    if n > 0 {
-        let mut small = vec![0x77u8; n - 1];
-        let before = small.clone();
-        let _ = write(cfg, &mut small);
-        if small != before {
-            return Err("a too-small write modified the buffer".into());
+        let b0 = b.clone();
+        let ra = write_dyn(w, &mut a);
+        let rb = write_dyn(w, &mut b);
+        if ra != Ok(n) || rb != Ok(n) {
+            return Err(format!("write failed: {:?} {:?}", ra, rb));
         }
+        if a[..n] != b[..n] {
+            let i = (0..n).find(|&i| a[i] != b[i]).unwrap();
+            return Err(format!("byte {} of {} depends on the previous buffer contents ({:02x} vs {:02x})", i, n, a[i], b[i]));
+        }
+        if a[n..].iter().any(|&x| x != 0) || b[n..] != b0[n..] {
+            return Err("bytes beyond the reported size were modified".into());
+        }
+        if n > 0 {
+            let mut small = vec![0x77u8; n - 1];
+            let before = small.clone();
+            let _ = write_dyn(w, &mut small);
+            if small != before {
+                return Err("a too-small write modified the buffer".into());
+            }
+        }
+        Ok(())
+    })
+}
+
+/// FIR entries may appear in any order: sort the 8-byte entries of every FIR packet (PT 206, FMT 4) of a (compound) image
+pub fn normalize_fir(bytes: &[u8]) -> Vec<u8> {
+    let mut out = bytes.to_vec();
+    let mut off = 0;
+    while off + 4 <= out.len() {
+        let len = 4 * (((out[off + 2] as usize) << 8 | out[off + 3] as usize) + 1);
+        if off + len > out.len() {
+            break;
+        }
+        if out[off + 1] == 206 && (out[off] & 0x1f) == 4 && len >= 12 {
+            let pad = if out[off] & 0x20 != 0 { out[off + len - 1] as usize } else { 0 };
+            if 12 + pad <= len {
+                let body = &mut out[off + 12..off + len - pad];
+                let mut ents: Vec<Vec<u8>> = body.chunks(8).map(|c| c.to_vec()).collect();
+                ents.sort();
+                let flat: Vec<u8> = ents.concat();
+                body.copy_from_slice(&flat);
+            }
+        }
+        off += len;
     }
-    Ok(())
+    out
 }
 
 fn built(cfg: &Cfg) -> Option<Vec<u8>> {
@@ -167,19 +194,8 @@ pub fn c07(cfg: &Cfg) -> Result<(), String> {
         Some(w) => w,
         None => return Ok(()), // accepted although not representable: that is C16's business
     };
-    if let Cfg::Fb { fci: Fci::Fir(_), .. } = cfg {
-        if got.len() != want.len() || got[..12] != want[..12] {
-            return Err(format!("FIR packet differs: got {} want {}", hex(&got), hex(&want)));
-        }
-        let mut g: Vec<&[u8]> = got[12..].chunks(8).collect();
-        let mut w: Vec<&[u8]> = want[12..].chunks(8).collect();
-        g.sort();
-        w.sort();
-        if g != w {
-            return Err(format!("FIR entries differ: got {} want {}", hex(&got), hex(&want)));
-        }
-        return Ok(());
-    }
+    let got = normalize_fir(&got);
+    let want = normalize_fir(&want);
     if got != want {
         return Err(format!("wire image differs: got {} want {}", hex(&got), hex(&want)));
     }
@@ -421,11 +437,22 @@ pub fn c14(cfg: &Cfg) -> Result<(), String> {
     for m in members {
         cat.extend(built(m).ok_or("member write failed")?);
     }
-    if whole != cat {
+    if normalize_fir(&whole) != normalize_fir(&cat) {
         return Err("compound bytes are not the concatenation of the member images".into());
     }
     if !members.is_empty() && members.iter().all(|m| !matches!(m, Cfg::Compound(_))) {
         let c = Compound::parse(&whole).map_err(|e| format!("built compound rejected: {:?}", e))?;
+        // expected: the generic parse of every member image, cut after the first member that fails on its own (C11)
+        let mut expected = 0usize;
+        let mut off2 = 0;
+        for i in 0..members.len() {
+            let n = *sizes[i].as_ref().unwrap();
+            expected += 1;
+            if Packet::parse(&whole[off2..off2 + n]).is_err() {
+                break;
+            }
+            off2 += n;
+        }
         let mut off = 0;
         let mut k = 0;
         for (i, item) in c.enumerate() {
@@ -434,6 +461,9 @@ pub fn c14(cfg: &Cfg) -> Result<(), String> {
                 return Err("more packets than members".into());
             }
             let n = *sizes[i].as_ref().unwrap();
+            if off + n > whole.len() {
+                return Err("member sizes exceed the compound".into());
+            }
             let alone = Packet::parse(&whole[off..off + n]);
             match (item, alone) {
                 (Ok(a), Ok(b)) => {
@@ -446,8 +476,8 @@ pub fn c14(cfg: &Cfg) -> Result<(), String> {
             }
             off += n;
         }
-        if k != members.len() {
-            return Err(format!("compound yields {} packets for {} members", k, members.len()));
+        if k != expected {
+            return Err(format!("compound yields {} packets, expected {} (of {} members)", k, expected, members.len()));
         }
     }
     Ok(())
